@@ -50,6 +50,14 @@ def fams(tier):
             out.append({"name": "plain:%s/%s" % (name, pre), "kind": "plain", "w": w, "cfg": cfg, "setup": setup, "parts": parts, "fire": None,
                         "values": {K.fnv_show(v) for v in list(V.values()) + ["V0V0V0", "empty"]}, "initial": "V0V0V0" if pre == "present" else ("empty" if pre == "present-empty" else None),
                         "opvals": V})
+    # "backup": a read-only cache behind the writer holds an OLDER value of the key: an ensure that finds
+    # it promotes it with put semantics (fills only an absent key) - it must never overwrite a set that
+    # completed in between; lookups that miss in the writer are served the backup's value
+    cfg_b = G.header(w, (("plain",),), "none")
+    backup = list(cfg_b) + ["mkdir w", G.plant("r0/" + KEY[0], "R0R0R0")]
+    for name, parts in (("ensure,get|set,get", [[e(1), g], [s(2), g]]), ("ensure|ensure,get", [[e(1)], [e(2), g]]), ("ensure,get|put,get", [[e(1), g], [p(2), g]])):
+        out.append({"name": "plain:%s/backup" % name, "kind": "plain", "w": w, "cfg": cfg_b, "setup": backup, "parts": parts, "fire": None,
+                    "values": {K.fnv_show(v) for v in list(V.values()) + ["R0R0R0"]}, "initial": None, "fallback": "R0R0R0", "opvals": V})
     return out
 
 
@@ -67,7 +75,8 @@ def parse_ops(fam, cr):
         if kind in ("set", "put"):
             arg = K.fnv_show(f[6])
         elif kind == "ensure":
-            arg = K.fnv_show(f[6].split(":", 1)[1].rsplit(":", 1)[0])
+            # what an ensure puts when the writer misses: the backup's value if there is one, else the populated value
+            arg = K.fnv_show(fam["fallback"]) if fam.get("fallback") else K.fnv_show(f[6].split(":", 1)[1].rsplit(":", 1)[0])
         obs = None
         if cls == "OkSome":
             obs = d.get("content")
@@ -83,7 +92,7 @@ def rest_bool(rest):
     return rest.split(" ")[1] == "1"
 
 
-def linearizable(ops, initial):
+def linearizable(ops, initial, fallback=None):
     """Wing & Gong search against the register-with-put specification."""
     n = len(ops)
     # ensure: either a plain lookup that hit, or put(arg) followed by a lookup
@@ -124,7 +133,8 @@ def linearizable(ops, initial):
                 elif kind == "put":
                     ok, ns = (ops[oi]["cls"] in ("OkUnit", "OkSome")), (state if state is not None else arg)
                 elif kind == "get":
-                    ok, ns = (obs == state and (state is not None or ops[oi]["cls"] == "OkNone")), state
+                    seen_val = state if state is not None else fallback
+                    ok, ns = (obs == seen_val and (seen_val is not None or ops[oi]["cls"] == "OkNone")), state
                 elif kind == "touch":
                     ok, ns = (obs == (state is not None)), state
                 else:
@@ -166,7 +176,7 @@ def run(ctx):
             violations.append({"what": "%s by participant %d ended with %s" % (errs[0]["kind"], errs[0]["p"], errs[0]["cls"]),
                                "classification": {"kind": "error", "op": errs[0]["kind"], "family": fam["name"]}, "replay": replay})
             continue
-        if not linearizable(ops, K.fnv_show(fam["initial"]) if fam["initial"] else None):
+        if not linearizable(ops, K.fnv_show(fam["initial"]) if fam["initial"] else None, fallback=(K.fnv_show(fam["fallback"]) if fam.get("fallback") else None)):
             violations.append({"what": "history admits no linearization against the register specification (set overwrites, put only fills an absent key): %s" %
                                "; ".join("p%d %s(%s)->%s [%d,%d]" % (o["p"], o["kind"], (o["arg"] or "")[:12], str(o["obs"])[:12], o["inv"], o["ret"]) for o in ops),
                                "classification": {"kind": "not-linearizable", "family": fam["name"].split("/")[0]}, "replay": replay})
